@@ -48,7 +48,8 @@ def template(draw):
         if i + 1 < nfr:
             tr = draw(st.sampled_from([["abs", draw(st.integers(1, 9))], ["repeat", draw(st.integers(0, 3))],
                                        ["timeout", draw(st.sampled_from(["0.125", "0.25", "0.375"]))], ["cnt", draw(st.integers(1, 4))],
-                                       ["m", draw(st.integers(1, 4))]]))
+                                       ["m", draw(st.integers(1, 4))],
+                                       ["markgate", draw(st.integers(2, 10)), draw(st.sampled_from(["changed", "updated"]))]]))
         else:
             tr = draw(st.sampled_from([None, ["done"], ["loop", draw(st.integers(2, 9))]]))
         acts_done = draw(st.booleans()) if i + 1 == nfr else False
@@ -84,7 +85,11 @@ def template(draw):
     # under frame chosen with the `under` verb (the clone must start in the same outline as its original)
     hier = draw(st.sampled_from([None, None, {"under": None}, {"under": draw(st.integers(0, nfr - 1))},
                                  {"under": draw(st.integers(0, nfr - 1))}]))
+    # a second main framer that clones the same moot with an insular tag (its clone gets the same TAG as the first
+    # insular clone of `main`, under another name): marks and other per-clone state must be kept per clone, not per tag
+    second = draw(st.sampled_from([None, {"tb": draw(st.integers(1, 6)), "tb2": draw(st.integers(1, 6))}]))
     return {"body": body, "nested": nested, "clones": clones, "rear": rear, "use_m": use_m, "hier": hier,
+            "second": second, "ek": draw(st.integers(1, 8)),
             "t1": draw(st.integers(1, 6)), "t2": draw(st.integers(1, 6)), "t3": draw(st.integers(1, 5)), "t4": draw(st.integers(1, 5)),
             "loop": draw(st.booleans()), "ticks": draw(st.integers(8, 26)), "mainvia": draw(st.booleans())}
 
@@ -141,6 +146,10 @@ def moot_lines(name, body, nested, sched, use_m=False, hier=None):
                 L.append("go next if cnt of framer >= %d" % tr[1])
             elif tr[0] == "m":
                 L.append("go next if m of me >= %d" % tr[1])
+            elif tr[0] == "markgate":
+                # the marker need is only evaluated from tick tr[1] on; what it reports depends on the mark taken
+                # when THIS clone entered the frame
+                L.append("go next if .d.a >= %d and .d.e is %s" % (tr[1], tr[2]))
             elif tr[0] == "done":
                 L.append("native")
                 L.append("done me")
@@ -152,7 +161,8 @@ def moot_lines(name, body, nested, sched, use_m=False, hier=None):
 def script(tp, baseline=None):
     """baseline = None: the clone script. baseline = ("static", j) / ("rear",): script in which M is a plain
     aux used where that clone is; all other clone clauses are placeholders (same line count)."""
-    L = ["house h", "init .d.a with 0", "framer drv be active in front", "frame drva", "recur", "inc .d.a with 1"]
+    L = ["house h", "init .d.a with 0", "init .d.e with 0", "framer drv be active in front", "frame drva", "recur", "inc .d.a with 1",
+         "go drvb if .d.a >= %d" % tp.get("ek", 99), "frame drvb", "enter", "put 5 into .d.e", "recur", "inc .d.a with 1"]
     L += ["framer main be active first f1" + (" via top" if tp.get("mainvia") else "")]
     rear = tp["rear"]
     for fname in ("f1", "f2"):
@@ -186,6 +196,16 @@ def script(tp, baseline=None):
         L.append("enter")
         L.append(("raze %s in frame f4" % rear["raze"]) if baseline is None else PLACEHOLDER)
     L.append("go f4 if elapsed >= %s" % (0.125 * tp["t4"]) if tp["loop"] else "go f1 if elapsed >= %s" % (0.125 * tp["t4"]))
+    sec = tp.get("second")
+    if sec:
+        L += ["framer mainb be active first g1", "frame g1", "go next if .d.a >= %d" % sec["tb"], "frame g2"]
+        if baseline is None:
+            L.append("aux org as mine" + (" via inob" if tp.get("use_m") else ""))
+        elif baseline == ("second",):
+            L.append("aux org")
+        else:
+            L.append(PLACEHOLDER)
+        L += ["go next if .d.a >= %d" % (sec["tb"] + sec["tb2"]), "frame g3", "print g"]
     sched = "moot" if baseline is None else "aux"
     L += moot_lines("org", tp["body"], tp["nested"], sched, tp.get("use_m"), tp.get("hier"))
     if tp.get("use_m"):
@@ -278,6 +298,27 @@ def check_case(tp):
         if s1 != s2:
             fails.append(("clone-relative-data-differs", "clone %s relative store data %r, the original's %r\n%s" % (name, s1, s2, script(tp))))
         seen_prefixes.append(name)
+    # (a2) the insular clone of the second main framer vs the original as its plain aux
+    if tp.get("second"):
+        info["second"] = True
+        name = "mainb_org1"
+        b = run_text(script(tp, ("second",)), ticks)
+        if b["build"] != "True" or b.get("exc"):
+            fails.append(("baseline-build", "baseline script for the clone of the second main framer did not build/run: %s %s %s\n%s" % (
+                b["build"], b["detail"], b.get("exc"), script(tp, ("second",)))))
+        else:
+            h1 = history(t, name)
+            h2 = history(b, "org")
+            if h1 != h2:
+                k = 0
+                while k < min(len(h1), len(h2)) and h1[k] == h2[k]:
+                    k += 1
+                fails.append(("clone-differs-from-original", "clone %s (second main framer): event %d is %r, the original used as a plain aux in the same place gives %r\n%s" % (
+                    name, k, h1[k] if k < len(h1) else None, h2[k] if k < len(h2) else None, script(tp))))
+            s1, s2 = store_of(t, name), store_of(b, "org")
+            if s1 != s2:
+                fails.append(("clone-relative-data-differs", "clone %s relative store data %r, the original's %r\n%s" % (name, s1, s2, script(tp))))
+            seen_prefixes.append(name)
     # (b) disjoint relative paths
     allp = {}
     for name in seen_prefixes:
@@ -400,6 +441,10 @@ def work(shard, seed, tier):
             cl.append("razed")
         if tp["nested"]:
             cl.append("nested-clone")
+        if info.get("second"):
+            cl.append("second-main-framer-clone")
+        if any(fr["tr"] and fr["tr"][0] == "markgate" for fr in tp["body"]):
+            cl.append("marker-gated-transition")
         return Outcome(fails, nontrivial=nt, classes=cl, key=tp, sample={"script": script(tp)})
     campaign(acc, template(), execute, shard["count"], seed * 1000 + shard["i"], budget=Budget(200 if tier == "quick" else 1500),
              to_case=lambda tp: {"tp": tp}, shrink_examples=150)
